@@ -110,7 +110,7 @@ def stateless (st : St) (c dir md root filt : String) : String :=
   | _, _, _, _, _ => "bad-op"
 
 def St.numEdges (st : St) : String → Option Nat
-  | "am" => some st.am.numEdges
+  | "am" => some (if st.fixed then st.am.numEdges else st.am.numEdgesOld)
   | "csr" => some st.csrb.build.numEdges
   | "ts" => some st.ts.numEdges
   | "proj" => some st.curProj.numEdges
